@@ -194,6 +194,9 @@ func Units(p *Program, prop string) []*Unit {
 		if fc.Flags["trusted"] {
 			continue
 		}
+		if fc.Flags["inline"] && len(fc.Ensures) == 0 && len(fc.Requires) == 0 {
+			continue // marker only: callers inline the body
+		}
 		us = append(us, VerifyFunc(p, fc, prop))
 	}
 	for _, l := range p.Contracts.Lemmas {
